@@ -106,7 +106,7 @@ theorem FRepr.new_normalized (B : Nat) (hB : 2 ≤ B) (s e : Int) : Normalized B
 
 theorem contract_of_icontract (B : Nat) (hB : 2 ≤ B) (m : Mode) (p k : Nat) (hp : 1 ≤ p) (X R : Int)
     (flag : Option Rounding) (e : Int)
-    (h : IContract m ((B ^ k : Nat) : Int) X R flag)
+    (h : IContract m ((B ^ k : Nat) : Int) X R flag) (hR : ∃ t : Int, R = t * ((B ^ k : Nat) : Int))
     (hulp : ((B ^ k : Nat) : Int) * ((B ^ (p - 1) : Nat) : Int) ≤ |X|) :
     Contract B m p ((X : ℚ) * bpowQ B e) ((R : ℚ) * bpowQ B e) flag := by
   have hB0 : 0 < B := by omega
@@ -122,7 +122,11 @@ theorem contract_of_icontract (B : Nat) (hB : 2 ≤ B) (m : Mode) (p k : Nat) (h
     · intro hf; exact absurd hf h.flag_some
     · intro hr; exact absurd hr hne
   · intro _
-    refine ⟨(k : Int) + e, ?_, ?_⟩
+    refine ⟨(k : Int) + e, ?_, ?_, ?_⟩
+    rotate_left 2
+    · obtain ⟨t, ht⟩ := hR
+      refine ⟨t, ?_⟩
+      rw [hunit, ht]; push_cast; ring
     · have e1 : (k : Int) + e + p - 1 = ((k + (p - 1) : Nat) : Int) + e := by
         push_cast; omega
       rw [e1, bpowQ_add B hB0, bpowQ_nat, absQ_eq, abs_mul, abs_of_pos hu]
@@ -183,7 +187,7 @@ theorem contract_of_icontract (B : Nat) (hB : 2 ≤ B) (m : Mode) (p k : Nat) (h
 /-- general form: unit `D > 0` (any integer), scale `u > 0` with `D · u = B^e` -/
 theorem contract_of_icontract' (B : Nat) (hB : 2 ≤ B) (m : Mode) (p : Nat) (hp : 1 ≤ p) (D X R : Int) (hD : 0 < D)
     (flag : Option Rounding) (u : ℚ) (hu : 0 < u) (e : Int) (hunit : (D : ℚ) * u = bpowQ B e)
-    (h : IContract m D X R flag)
+    (h : IContract m D X R flag) (hR : ∃ t : Int, R = t * D)
     (hulp : D * ((B ^ (p - 1) : Nat) : Int) ≤ |X|) :
     Contract B m p ((X : ℚ) * u) ((R : ℚ) * u) flag := by
   have hB0 : 0 < B := by omega
@@ -196,7 +200,11 @@ theorem contract_of_icontract' (B : Nat) (hB : 2 ≤ B) (m : Mode) (p : Nat) (hp
     · intro hf; exact absurd hf h.flag_some
     · intro hr; exact absurd hr hne
   · intro _
-    refine ⟨e, ?_, ?_⟩
+    refine ⟨e, ?_, ?_, ?_⟩
+    rotate_left 2
+    · obtain ⟨t, ht⟩ := hR
+      refine ⟨t, ?_⟩
+      rw [← hunit, ht]; push_cast; ring
     · have e1 : e + p - 1 = ((p - 1 : Nat) : Int) + e := by push_cast; omega
       rw [e1, bpowQ_add B hB0, bpowQ_nat, ← hunit, absQ_eq, abs_mul, abs_of_pos hu]
       have : ((B ^ (p - 1) : Nat) : ℚ) * ((D : ℚ) * u) = (((D * ((B ^ (p - 1) : Nat) : Int) : Int)) : ℚ) * u := by
